@@ -223,48 +223,301 @@ Lemma cm_get_spec d v :
                 match lookup d v with Some _ => [] | None => [v] end).
 Proof. unfold cm_get. destruct (lookup d v) as [val|]; [destruct val|]; reflexivity. Qed.
 
-(* THE segment theorem of the cmake formats: every value is inserted verbatim - never scanned
-   again, nothing after it skipped - and every undefined name is reported, for ALL values *)
-Theorem cmake_segments_fuel (at_only : bool) d : forall (l : list cseg) fuel,
-  wf_csegs at_only l = true -> (length (crender_all l) < fuel)%nat ->
-  cm_scan fuel at_only d (crender_all l) = Ok (cexpand_all d l, cmissing d l).
+(* ------------------------------------------------------------------ nested ${...} *)
+Definition bprep (p : str) (r : option (str * str)) : option (str * str) :=
+  match r with Some (i, rest) => Some (p ++ i, rest) | None => None end.
+Lemma bprep_bprep a b r : bprep a (bprep b r) = bprep (a ++ b) r.
+Proof. destruct r as [[i rest]|]; cbn; rewrite ?app_assoc; reflexivity. Qed.
+Lemma bprep_nil r : bprep [] r = r.
+Proof. destruct r as [[i rest]|]; reflexivity. Qed.
+
+Lemma brackets_char cnt (c : char) (t : str) :
+  ((c =? 64) || cm_valid c) = true -> brackets cnt (c :: t) = bprep [c] (brackets cnt t).
 Proof.
-  induction l as [|g r IH]; intros fuel Hwf Hlen.
-  - destruct fuel; [cbn in Hlen; lia|]. reflexivity.
-  - cbn [wf_csegs] in Hwf. apply andb_true_iff in Hwf. destruct Hwf as [Hg Hr].
-    rewrite crender_all_cons in *. rewrite app_length in Hlen.
-    destruct g as [s|v|v| |]; cbn [crender] in *.
+  intros H. assert (H36 : (c =? 36) = false /\ (c =? 125) = false).
+  { apply orb_true_iff in H. destruct H as [H|H].
+    - apply N.eqb_eq in H. subst. split; reflexivity.
+    - destruct (valid_not c H) as [_ [H1 [H2 _]]]. split; assumption. }
+  destruct H36 as [H36 H125]. cbn [brackets]. rewrite H36, H125. cbn [andb].
+  replace ((c =? 64) || (c =? 10) || cm_valid c) with true
+    by (symmetry; destruct (c =? 64); [reflexivity|]; cbn [orb] in *; rewrite H; apply orb_true_r).
+  destruct (brackets cnt t) as [[i rest]|]; reflexivity.
+Qed.
+Lemma brackets_chars cnt (s t : str) :
+  forallb cm_valid s = true -> brackets cnt (s ++ t) = bprep s (brackets cnt t).
+Proof.
+  induction s as [|c s IH]; intros H; cbn [app]; [rewrite bprep_nil; reflexivity|].
+  cbn [forallb] in H. apply andb_true_iff in H. destruct H as [Hc Hs].
+  rewrite brackets_char by (rewrite Hc; apply orb_true_r). rewrite (IH Hs), bprep_bprep. reflexivity.
+Qed.
+Lemma brackets_open cnt (t : str) :
+  brackets cnt (36 :: 123 :: t) = bprep [36; 123] (brackets (S cnt) t).
+Proof. cbn [brackets hd_is]. change (36 =? 36) with true. change (123 =? 123) with true. cbn [andb].
+  destruct (brackets (S cnt) t) as [[i rest]|]; reflexivity. Qed.
+Lemma brackets_close cnt (t : str) :
+  brackets (S cnt) (125 :: t) = bprep [125] (brackets cnt t).
+Proof. cbn [brackets]. change (125 =? 36) with false. change (125 =? 125) with true. cbn [andb].
+  destruct (brackets cnt t) as [[i rest]|]; reflexivity. Qed.
+
+(* the bracket matcher walks over a well-formed expression without changing its count *)
+Lemma brackets_nexpr : forall (e : nexpr) cnt (t : str),
+  wf_nexpr e = true -> brackets cnt (nrender e ++ t) = bprep (nrender e) (brackets cnt t).
+Proof.
+  induction e as [|s r IHr|i IHi r IHr|v r IHr]; intros cnt t H; cbn [nrender wf_nexpr] in *.
+  - cbn [app]. rewrite bprep_nil. reflexivity.
+  - apply andb_true_iff in H. destruct H as [Hs Hr]. rewrite <- app_assoc.
+    rewrite (brackets_chars cnt s _ Hs), (IHr cnt t Hr), bprep_bprep. reflexivity.
+  - apply andb_true_iff in H. destruct H as [Hi Hr]. cbn [app].
+    rwn (brackets_open cnt ((nrender i ++ 125 :: nrender r) ++ t)).
+    repl ((nrender i ++ 125 :: nrender r) ++ t) (nrender i ++ 125 :: (nrender r ++ t))
+      ltac:(rewrite <- app_assoc; reflexivity).
+    rwn (IHi (S cnt) (125 :: (nrender r ++ t)) Hi). rwn (brackets_close cnt (nrender r ++ t)).
+    rwn (IHr cnt t Hr). rewrite !bprep_bprep. f_equal. cbn [app]. rewrite <- !app_assoc. reflexivity.
+  - apply andb_true_iff in H. destruct H as [H Hr]. apply andb_true_iff in H. destruct H as [Hne Hv]. cbn [app].
+    rwn (brackets_char cnt 64 ((v ++ 64 :: nrender r) ++ t) eq_refl).
+    repl ((v ++ 64 :: nrender r) ++ t) (v ++ 64 :: (nrender r ++ t)) ltac:(rewrite <- app_assoc; reflexivity).
+    rwn (brackets_chars cnt v (64 :: (nrender r ++ t)) Hv).
+    rwn (brackets_char cnt 64 (nrender r ++ t) eq_refl). rwn (IHr cnt t Hr).
+    rewrite !bprep_bprep. f_equal. cbn [app]. rewrite <- !app_assoc. reflexivity.
+Qed.
+
+Lemma brackets_nexpr_closed (e : nexpr) (rest : str) :
+  wf_nexpr e = true -> brackets 0 (nrender e ++ 125 :: rest) = Some (nrender e, rest).
+Proof.
+  intros H. rewrite (brackets_nexpr e 0 (125 :: rest) H).
+  cbn [brackets]. change (125 =? 36) with false. change (125 =? 125) with true. cbn [andb bprep].
+  rewrite app_nil_r. reflexivity.
+Qed.
+
+Lemma cm_get_lookup_out d v : cm_get d v = lookup_out d v.
+Proof. unfold cm_get, lookup_out. destruct (lookup d v) as [val|]; [destruct val|]; reflexivity. Qed.
+
+Definition of_opt (o : option (str * list str)) : result (str * list str) :=
+  match o with Some om => Ok om | None => MesonErr end.
+
+(* one step of the scanner on "${" inner "}" rest, for ANY inner text the bracket matcher accepts *)
+Lemma scan_brace_step d f (inner rest : str) :
+  brackets 0 (inner ++ 125 :: rest) = Some (inner, rest) ->
+  cm_scan (S f) false d (36 :: 123 :: inner ++ 125 :: rest)
+  = match cm_scan f false d inner with
+    | Ok (name, m1) =>
+        if forallb cm_valid name
+        then cons_out (fst (cm_get d name)) (m1 ++ snd (cm_get d name)) (cm_scan f false d rest)
+        else MesonErr
+    | e => e
+    end.
+Proof.
+  intros Hb. cbn [cm_scan]. change (36 =? 64) with false. change (36 =? 36) with true.
+  cbn [negb andb hd_is tl]. change (123 =? 123) with true. cbv iota. nrm. rewrite Hb.
+  destruct (cm_scan f false d inner) as [[name m1]| | |]; try reflexivity.
+  destruct (cm_get d name); reflexivity.
+Qed.
+
+(* nested references are evaluated inside out; an inner result that is not a variable name is an error *)
+Lemma cm_scan_nexpr d : forall (e : nexpr) fuel,
+  wf_nexpr e = true -> (length (nrender e) < fuel)%nat ->
+  cm_scan fuel false d (nrender e) = of_opt (neval d e).
+Proof.
+  induction e as [|s r IHr|i IHi r IHr|v r IHr]; intros fuel H Hlen; cbn [nrender wf_nexpr neval] in *.
+  - destruct fuel; [lia|]. reflexivity.
+  - apply andb_true_iff in H. destruct H as [Hs Hr]. rewrite app_length in Hlen.
+    rewrite (scan_lit' false d s fuel (nrender r) (valid_lit_ok false s Hs) ltac:(lia)).
+    rewrite (IHr (fuel - length s)%nat Hr ltac:(lia)).
+    destruct (neval d r) as [[o m]|]; reflexivity.
+  - apply andb_true_iff in H. destruct H as [Hi Hr]. cbn [length] in Hlen. rewrite app_length in Hlen. cbn [length] in Hlen.
+    destruct fuel as [|f]; [lia|].
+    rwn (scan_brace_step d f (nrender i) (nrender r) (brackets_nexpr_closed i (nrender r) Hi)).
+    rwn (IHi f Hi ltac:(lia)). rwn (IHr f Hr ltac:(lia)).
+    destruct (neval d i) as [[name m1]|]; cbn [of_opt]; [|reflexivity].
+    change (forallb cm_name_char name) with (forallb cm_valid name). nrm.
+    destruct (@forallb N cm_valid name); [|reflexivity]. rewrite cm_get_lookup_out.
+    destruct (neval d r) as [[o m]|]; cbn [of_opt cons_out]; [|reflexivity]. rewrite <- app_assoc. reflexivity.
+  - apply andb_true_iff in H. destruct H as [H Hr]. apply andb_true_iff in H. destruct H as [Hne Hv].
+    cbn [length] in Hlen. rewrite app_length in Hlen. cbn [length] in Hlen.
+    destruct fuel as [|f]; [lia|].
+    rwn (scan_var false d f v (nrender r) Hne Hv). rwn (IHr f Hr ltac:(lia)). rewrite cm_get_lookup_out.
+    destruct (neval d r) as [[o m]|]; reflexivity.
+Qed.
+
+(* ${e} followed by more text *)
+Lemma scan_nested d f (e : nexpr) (rest : str) :
+  wf_nexpr e = true -> (length (nrender e) < f)%nat ->
+  cm_scan (S f) false d (36 :: 123 :: nrender e ++ 125 :: rest)
+  = match nvalue d e with
+    | Some (o, m) => cons_out o m (cm_scan f false d rest)
+    | None => MesonErr
+    end.
+Proof.
+  intros H Hlen. rwn (scan_brace_step d f (nrender e) rest (brackets_nexpr_closed e rest H)).
+  rwn (cm_scan_nexpr d e f H Hlen). unfold nvalue. cbn [neval].
+  destruct (neval d e) as [[name m1]|]; cbn [of_opt]; [|reflexivity].
+  change (forallb cm_name_char name) with (forallb cm_valid name). nrm.
+  destruct (@forallb N cm_valid name); [|reflexivity]. rewrite cm_get_lookup_out.
+  rewrite !app_nil_r. reflexivity.
+Qed.
+
+(* well-formedness of a segment list that is followed by more (arbitrary) text *)
+Fixpoint wf_tail (at_only : bool) (l : list cseg) (tail : str) : bool :=
+  match l with
+  | [] => true
+  | g :: r =>
+      let rest := crender_all r ++ tail in
+      (match g with
+       | CLit s => forallb (fun c => negb (c =? 64) && (at_only || negb (c =? 36))) s
+       | CVar v => nonempty v && forallb cm_name_char v
+       | CBrace v => negb at_only && forallb cm_name_char v
+       | CNested e => negb at_only && wf_nexpr e
+       | CAt => negb (opens_var rest false)
+       | CDollar => negb at_only && negb (hd_is 123 rest)
+       end) && wf_tail at_only r tail
+  end.
+Lemma wf_tail_nil at_only l : wf_tail at_only l [] = wf_csegs at_only l.
+Proof. induction l as [|g r IH]; [reflexivity|]. cbn [wf_tail wf_csegs]. rewrite app_nil_r, IH. reflexivity. Qed.
+
+Lemma cons_out_nil r : cons_out [] [] r = r.
+Proof. destruct r as [[o m]| | |]; reflexivity. Qed.
+
+(* a well-formed prefix is replaced segment by segment, whatever follows it *)
+Lemma cmake_prefix (at_only : bool) d : forall (l : list cseg) (tail : str) fuel,
+  wf_tail at_only l tail = true -> forallb (cseg_ok d) l = true ->
+  (length (crender_all l ++ tail) < fuel)%nat ->
+  exists fuel', (length tail < fuel')%nat /\
+    cm_scan fuel at_only d (crender_all l ++ tail)
+    = cons_out (cexpand_all d l) (cmissing d l) (cm_scan fuel' at_only d tail).
+Proof.
+  induction l as [|g r IH]; intros tail fuel Hwf Hok Hlen.
+  - exists fuel. split; [exact Hlen|]. cbn [crender_all map concat app]. rewrite cons_out_nil. reflexivity.
+  - cbn [wf_tail] in Hwf. apply andb_true_iff in Hwf. destruct Hwf as [Hg Hr].
+    cbn [forallb] in Hok. apply andb_true_iff in Hok. destruct Hok as [Hokg Hokr].
+    rewrite crender_all_cons in *. rewrite <- app_assoc in *. rewrite app_length in Hlen.
+    set (rest := crender_all r ++ tail) in *.
+    destruct g as [s|v|v|e| |]; cbn [crender] in *.
     + (* CLit *)
-      rewrite (scan_lit' at_only d s fuel (crender_all r) Hg ltac:(lia)).
-      rewrite (IH (fuel - length s)%nat Hr ltac:(lia)). reflexivity.
+      rewrite (scan_lit' at_only d s fuel rest Hg ltac:(lia)).
+      destruct (IH tail (fuel - length s)%nat Hr Hokr ltac:(subst rest; lia)) as [f' [Hf' E]]. exists f'. split; [exact Hf'|].
+      subst rest. rewrite E, cons_out_cons_out. reflexivity.
     + (* CVar *)
       apply andb_true_iff in Hg. destruct Hg as [Hne Hv]. cbn [length] in Hlen. rewrite app_length in Hlen. cbn [length] in Hlen.
       destruct fuel as [|f]; [lia|].
-      repl ((64 :: v ++ [64]) ++ crender_all r) (64 :: v ++ 64 :: crender_all r)
-        ltac:(cbn [app]; rewrite <- app_assoc; reflexivity).
-      rwn (scan_var at_only d f v (crender_all r) Hne Hv). rewrite (IH f Hr ltac:(lia)).
-      rewrite cm_get_spec. reflexivity.
+      repl ((64 :: v ++ [64]) ++ rest) (64 :: v ++ 64 :: rest) ltac:(cbn [app]; rewrite <- app_assoc; reflexivity).
+      rwn (scan_var at_only d f v rest Hne Hv).
+      destruct (IH tail f Hr Hokr ltac:(subst rest; lia)) as [f' [Hf' E]]. exists f'. split; [exact Hf'|].
+      subst rest. rwn E. rewrite cons_out_cons_out, cm_get_spec. reflexivity.
     + (* CBrace *)
       apply andb_true_iff in Hg. destruct Hg as [Hat Hv]. apply negb_true_iff in Hat. subst at_only.
       cbn [length] in Hlen. rewrite app_length in Hlen. cbn [length] in Hlen.
       destruct fuel as [|f]; [lia|].
-      repl ((36 :: 123 :: v ++ [125]) ++ crender_all r) (36 :: 123 :: v ++ 125 :: crender_all r)
+      repl ((36 :: 123 :: v ++ [125]) ++ rest) (36 :: 123 :: v ++ 125 :: rest) ltac:(cbn [app]; rewrite <- app_assoc; reflexivity).
+      rwn (scan_brace d f v rest Hv ltac:(lia)).
+      destruct (IH tail f Hr Hokr ltac:(subst rest; lia)) as [f' [Hf' E]]. exists f'. split; [exact Hf'|].
+      subst rest. rwn E. rewrite cons_out_cons_out, cm_get_spec. reflexivity.
+    + (* CNested *)
+      apply andb_true_iff in Hg. destruct Hg as [Hat He]. apply negb_true_iff in Hat. subst at_only.
+      cbn [length] in Hlen. rewrite app_length in Hlen. cbn [length] in Hlen.
+      destruct fuel as [|f]; [lia|].
+      repl ((36 :: 123 :: nrender e ++ [125]) ++ rest) (36 :: 123 :: nrender e ++ 125 :: rest)
         ltac:(cbn [app]; rewrite <- app_assoc; reflexivity).
-      rwn (scan_brace d f v (crender_all r) Hv ltac:(lia)). rewrite (IH f Hr ltac:(lia)).
-      rewrite cm_get_spec. reflexivity.
+      rwn (scan_nested d f e rest He ltac:(lia)).
+      destruct (IH tail f Hr Hokr ltac:(subst rest; lia)) as [f' [Hf' E]]. exists f'. split; [exact Hf'|].
+      subst rest. rwn E. unfold cexpand_all, cmissing. cbn [map concat cexpand]. cbn [cseg_ok] in Hokg.
+      destruct (nvalue d e) as [[o m]|]; [|discriminate]. rewrite cons_out_cons_out. reflexivity.
     + (* CAt *)
       apply negb_true_iff in Hg. cbn [length] in Hlen. destruct fuel as [|f]; [lia|]. cbn [app].
-      rwn (scan_lone_at at_only d f (crender_all r) Hg). rewrite (IH f Hr ltac:(lia)). reflexivity.
+      rwn (scan_lone_at at_only d f rest Hg).
+      destruct (IH tail f Hr Hokr ltac:(subst rest; lia)) as [f' [Hf' E]]. exists f'. split; [exact Hf'|].
+      subst rest. rwn E. rewrite cons_out_cons_out. reflexivity.
     + (* CDollar *)
       apply andb_true_iff in Hg. destruct Hg as [Hat Hh]. apply negb_true_iff in Hat. apply negb_true_iff in Hh. subst at_only.
       cbn [length] in Hlen. destruct fuel as [|f]; [lia|]. cbn [app].
-      rwn (scan_lone_dollar d f (crender_all r) Hh). rewrite (IH f Hr ltac:(lia)). reflexivity.
+      rwn (scan_lone_dollar d f rest Hh).
+      destruct (IH tail f Hr Hokr ltac:(subst rest; lia)) as [f' [Hf' E]]. exists f'. split; [exact Hf'|].
+      subst rest. rwn E. rewrite cons_out_cons_out. reflexivity.
+Qed.
+
+(* THE segment theorem of the cmake formats: every value is inserted verbatim - never scanned
+   again, nothing after it skipped - nested ${${..}} references are evaluated inside out, and
+   every undefined name is reported, for ALL values *)
+Theorem cmake_segments_fuel (at_only : bool) d : forall (l : list cseg) fuel,
+  wf_csegs at_only l = true -> forallb (cseg_ok d) l = true -> (length (crender_all l) < fuel)%nat ->
+  cm_scan fuel at_only d (crender_all l) = Ok (cexpand_all d l, cmissing d l).
+Proof.
+  intros l fuel Hwf Hok Hlen. rewrite <- wf_tail_nil in Hwf.
+  destruct (cmake_prefix at_only d l [] fuel Hwf Hok ltac:(rewrite app_nil_r; exact Hlen)) as [f' [Hf' E]].
+  rewrite app_nil_r in E. rewrite E. destruct f'; [cbn in Hf'; lia|]. cbn [cm_scan cons_out].
+  rewrite !app_nil_r. reflexivity.
 Qed.
 
 Theorem cmake_segments (at_only : bool) d (l : list cseg) :
-  wf_csegs at_only l = true ->
+  wf_csegs at_only l = true -> forallb (cseg_ok d) l = true ->
   subst_cmake at_only d (crender_all l) = Ok (cexpand_all d l, cmissing d l).
-Proof. intros H. apply cmake_segments_fuel; [exact H|lia]. Qed.
+Proof. intros H Hok. apply cmake_segments_fuel; [exact H|exact Hok|lia]. Qed.
+
+(* ------------------------------------------------------------------ the error cases *)
+Lemma cons_out_err o m : cons_out o m (@MesonErr (str * list str)) = MesonErr.
+Proof. reflexivity. Qed.
+
+(* after any well-formed prefix: a nested reference whose inner text does not evaluate to a
+   variable name is a MesonException *)
+Theorem cmake_bad_nested_name d (l : list cseg) (e : nexpr) (after : str) :
+  wf_tail false l (crender (CNested e) ++ after) = true -> forallb (cseg_ok d) l = true ->
+  wf_nexpr e = true -> nvalue d e = None ->
+  subst_cmake false d (crender_all l ++ crender (CNested e) ++ after) = MesonErr.
+Proof.
+  intros Hwf Hok He Hn. unfold subst_cmake.
+  destruct (cmake_prefix false d l _ _ Hwf Hok (Nat.lt_succ_diag_r _)) as [f' [Hf' E]]. rewrite E.
+  cbn [crender] in *. destruct f' as [|f]; [cbn in Hf'; lia|].
+  repl ((36 :: 123 :: nrender e ++ [125]) ++ after) (36 :: 123 :: nrender e ++ 125 :: after)
+    ltac:(cbn [app]; rewrite <- app_assoc; reflexivity).
+  assert (Hl : (length (nrender e) < f)%nat).
+  { cbn [length app] in Hf'. rewrite !app_length in Hf'. cbn [length] in Hf'. lia. }
+  rwn (scan_nested d f e after He Hl). rewrite Hn. reflexivity.
+Qed.
+
+(* ... and so is a "${" that the bracket matcher rejects (never closed, or an invalid character inside) *)
+Theorem cmake_bad_brackets d (l : list cseg) (t : str) :
+  wf_tail false l (36 :: 123 :: t) = true -> forallb (cseg_ok d) l = true ->
+  brackets 0 t = None ->
+  subst_cmake false d (crender_all l ++ 36 :: 123 :: t) = MesonErr.
+Proof.
+  intros Hwf Hok Hb. unfold subst_cmake.
+  destruct (cmake_prefix false d l _ _ Hwf Hok (Nat.lt_succ_diag_r _)) as [f' [Hf' E]]. rewrite E.
+  destruct f' as [|f]; [cbn in Hf'; lia|].
+  cbn [cm_scan]. change (36 =? 64) with false. change (36 =? 36) with true.
+  cbn [negb andb hd_is tl]. change (123 =? 123) with true. cbv iota. nrm. rewrite Hb. reflexivity.
+Qed.
+
+(* never closed: no '}' at all *)
+Lemma brackets_unterminated : forall n (t : str) cnt, (length t <= n)%nat ->
+  forallb (fun c => negb (c =? 125)) t = true -> brackets cnt t = None.
+Proof.
+  induction n as [|n IH]; intros t cnt Hn H.
+  - destruct t; [reflexivity|cbn in Hn; lia].
+  - destruct t as [|c t]; [reflexivity|]. cbn [length forallb] in *.
+    apply andb_true_iff in H. destruct H as [Hc Ht]. apply negb_true_iff in Hc.
+    cbn [brackets]. destruct ((c =? 36) && hd_is 123 t).
+    + destruct t as [|c2 t2]; [reflexivity|]. cbn [length forallb] in *.
+      apply andb_true_iff in Ht. destruct Ht as [_ Ht2]. rewrite (IH t2 (S cnt) ltac:(lia) Ht2). reflexivity.
+    + rewrite Hc. destruct ((c =? 64) || (c =? 10) || cm_valid c); [|reflexivity].
+      rewrite (IH t cnt ltac:(lia) Ht). reflexivity.
+Qed.
+(* an invalid character after name characters *)
+Definition bad_in_braces (c : char) (t : str) : bool :=
+  negb ((c =? 36) && hd_is 123 t) && negb (c =? 125) && negb ((c =? 64) || (c =? 10) || cm_valid c).
+Lemma brackets_invalid_char cnt (s : str) (c : char) (t : str) :
+  forallb cm_valid s = true -> bad_in_braces c t = true -> brackets cnt (s ++ c :: t) = None.
+Proof.
+  intros Hs Hc. rewrite (brackets_chars cnt s (c :: t) Hs).
+  unfold bad_in_braces in Hc. apply andb_true_iff in Hc. destruct Hc as [Hc H3]. apply andb_true_iff in Hc. destruct Hc as [H1 H2].
+  apply negb_true_iff in H1. apply negb_true_iff in H2. apply negb_true_iff in H3.
+  cbn [brackets]. rewrite H1, H2, H3. reflexivity.
+Qed.
+
+Example cmake_error_examples :
+  subst_cmake false [] (s2l "x ${B") = MesonErr /\ subst_cmake false [] (s2l "${B C}") = MesonErr /\
+  subst_cmake false [(s2l "W", (VStr (s2l "a b"), []))] (s2l "${${W}}") = MesonErr /\
+  subst_cmake false [(s2l "Q", (VStr (s2l "B"), [])); (s2l "B", (VStr (s2l "bee"), []))] (s2l "${${Q}}|${x${nope}}")
+  = Ok (s2l "bee|", [s2l "nope"; s2l "x"]).
+Proof. repeat split; vm_compute; reflexivity. Qed.
 
 (* text without '@' (and, in the cmake format, without '$') is copied unchanged *)
 Theorem cmake_identity_plain (at_only : bool) d (s : str) :
@@ -273,7 +526,7 @@ Theorem cmake_identity_plain (at_only : bool) d (s : str) :
 Proof.
   intros H. pose proof (cmake_segments at_only d [CLit s]) as E.
   unfold crender_all, cexpand_all, cmissing in E. cbn [map concat crender cexpand wf_csegs] in E.
-  rewrite app_nil_r in E. apply E. rewrite H. reflexivity.
+  rewrite app_nil_r in E. apply E; [rewrite H; reflexivity|reflexivity].
 Qed.
 
 (* a value that names itself is inserted once; nothing diverges *)
